@@ -21,7 +21,7 @@ EXPLANATION = (
 
 def check(ctx, run):
     f = ctx.facts
-    run.rules_run = ['R13.1', 'R13.2', 'R13.3', 'R13.4', 'R13.5', 'R13.6', 'R13.7']
+    run.rules_run = ['R13.1', 'R13.2', 'R13.3', 'R13.4', 'R13.5', 'R13.6', 'R13.7', 'R13.8']
     # ---- R13.1
     keytypes = {}
     for fn in FNS:
@@ -101,6 +101,36 @@ def check(ctx, run):
                             ps_ |= pv.get(s_[1], set())
                     src = 'h2' if (2 in ps_ and 1 not in ps_) else 'h1'
                     heads.setdefault(src, set()).add(c[2] if c[1] == 'eq' else 'otherwise')
+        # the arm that walks an argument must have been chosen by *that* argument's header
+        cross = None
+        for q in paths:
+            for e in q.calls():
+                walked = None
+                if called(e[1], 'iterator::iterate_array', 'iterate_array') and e[2]:
+                    walked = e[2][0]
+                elif called(e[1], 'functions::read_u32') and len(e[2]) == 2 and const_of(e[2][1]) == 4:
+                    walked = e[2][0]
+                if walked is None:
+                    continue
+                pw = param_provenance(b, walked)
+                if len(pw) != 1:
+                    continue
+                last = None
+                for c in q.conds[:e[6]]:
+                    t = c[0]
+                    if t[0] == 'bin' and t[1] == 'BitAnd' and any(x[0] == 'const' and x[1] == 0xE0000000 for x in (t[2], t[3])):
+                        last = c
+                if last is None:
+                    continue
+                ph = param_provenance(b, last[0])
+                if ph and not (ph & pw):
+                    cross = (e, pw, ph)
+        if cross:
+            e_, pw, ph = cross
+            t_ = e_[5]
+            run.violation('R13.4', fn, 'dispatch/walked-argument', f'argument {sorted(pw)[0]} is walked in an arm selected by the header kind of argument {sorted(ph)[0]}: with inputs of different kinds '
+                          '(a scalar against an array) the elements are read under the wrong layout', f"{t_.get('file')}:{t_.get('line')}")
+            continue
         nargs = 1 if fn.endswith('distinct_jsonb') else 2
         ok = len(heads) == nargs and all(v == {0x80000000, 0x40000000, 'otherwise'} for v in heads.values())
         if not ok and len(heads) < nargs and all(v == {0x80000000, 0x40000000, 'otherwise'} for v in heads.values()):
@@ -137,14 +167,34 @@ def check(ctx, run):
         paths, loops = editing.region_paths(b)
         n = 0
         bad = 0
+        unsure = 0
         for q in paths:
             if q.end[0] == 'return' and agg_variant(q.ret) and q.ret[1][2] == 'Ok' and q.ret[2][0][0] == 'const' and q.ret[2][0][1] is True:
                 n += 1
                 hits = [c for c in q.conds if is_call(c[0], 'BTreeSet::contains') and c[2] is True]
-                if not hits or any(param_provenance(b, c[0][2][1]) - {1} for c in hits):
+                if hits and not any(param_provenance(b, c[0][2][1]) - {1} for c in hits):
+                    continue
+                # a membership test this rule does not read (a closure or helper applied to an element of the first list, an equality of pairs)
+                other = [c for c in q.conds if c[2] is True and not is_call(c[0], 'BTreeSet::contains') and
+                         any(s_[0] == 'call' for s_ in subterms(c[0])) and
+                         1 in set().union(*[param_provenance(b, a_) for s_ in subterms(c[0]) if s_[0] == 'call' for a_ in s_[2] if deref_all(a_)[0] != 'init'] or [set()])]
+                if other and not hits:
+                    unsure += 1
+                else:
                     bad += 1
-        (run.proved if n and not bad else run.violation)('R13.6', b.path, 'true-paths', f'{n} path(s) return true, each after item_set.contains(element of the first list)' if n and not bad else
+        if n and not bad and unsure:
+            run.undecided('R13.6', b.path, 'true-paths', f'{unsure} of {n} path(s) return true after a test on an element of the first list that this rule does not read (a closure or helper): '
+                          'whether it is membership in the set built from the second list is not decided', f'{b.file}:{b.line}')
+        else:
+            (run.proved if n and not bad else run.violation)('R13.6', b.path, 'true-paths', f'{n} path(s) return true, each after item_set.contains(element of the first list)' if n and not bad else
                                                           'a path returns true without an element of the first list having been found in the set built from the second: overlap can be true with an empty intersection', f'{b.file}:{b.line}')
+    from rules import safety
+    safety.forbidden_calls(ctx, run, 'R13.8', ['functions::array_distinct', 'functions::array_intersection', 'functions::array_except', 'functions::array_overlap'],
+                           ('Vec::dedup', 'Vec::dedup_by', 'Vec::dedup_by_key', 'slice::sort', 'slice::sort_unstable', 'slice::sort_by', 'slice::sort_by_key', 'slice::sort_unstable_by',
+                            'slice::reverse', 'Vec::retain', 'Vec::truncate', 'Vec::drain', 'Vec::remove', 'Vec::swap_remove'),
+                           'the text branch of a set function', 'the parsed list must reach the byte-level implementation unchanged: elements are identical only if entry word and payload agree '
+                           '(1 and 1.0 are different elements), which tree equality does not respect',
+                           only=lambda p_: p_ in ('functions::array_distinct', 'functions::array_intersection', 'functions::array_except', 'functions::array_overlap'))
     pub = {'functions::array_distinct', 'functions::array_intersection', 'functions::array_except', 'functions::array_overlap'}
     dispatch.r11_1(ctx, run, rule='R13.7/R11.1', only=pub)
     dispatch.r11_3(ctx, run, rule='R13.7/R11.3', only=set(pub))
